@@ -54,6 +54,8 @@ def model_replay(prop, tier, ev, rep, module, cfg, *, mode="fraction", label=Non
 
     n = replay_all(recs, r, on_fail, sample=lambda t: ev.sample(short(t)))
     ev.validated += n
+    if getattr(r, "unknown", 0):
+        ev.extra["transitions_skipped_model_overflow"] = ev.extra.get("transitions_skipped_model_overflow", 0) + r.unknown
     per = ev.extra.setdefault("replayed_by_action", {})
     for t in recs:
         per[t["act"]["name"]] = per.get(t["act"]["name"], 0) + 1
